@@ -141,7 +141,8 @@ class FsSeam:
 
     def new_path(self, ext):
         self.n += 1
-        return os.path.join(self.dir, f'p{self.n}.{ext}')
+        # (file names are case-sensitive: every third name has capitals)
+        return os.path.join(self.dir, (f'p{self.n}.{ext}' if self.n % 3 else f'SessB{self.n}.{ext}'))
 
     def rel(self, path):
         if not isinstance(path, str):
